@@ -41,8 +41,9 @@ type Run struct {
 	sentTomb     map[int]bool // collections that currently hold the sentinel tombstone
 	DropHappened bool
 	Ghosts       []ghost // data store objects of dropped collections, kept to be used after the drop
-	SharedKeyOps int     // steps whose key existed in >= 2 collections in different states
-	IsoProbes    bool    // C11: compare query/view/ddoc probes of other collections after each step
+	ghostWrites  int
+	SharedKeyOps int  // steps whose key existed in >= 2 collections in different states
+	IsoProbes    bool // C11: compare query/view/ddoc probes of other collections after each step
 	probes       map[int]string
 	Twin         *World // C11: a second bucket with the same collection and key names; must never change
 	twinState    map[string]St
@@ -520,7 +521,9 @@ func (r *Run) Purge(h int) {
 	if err != nil {
 		r.dev("purge.err", []string{"C05"}, "PurgeTombstones failed: %v", err)
 		tr.Outcome = "DEVIATION"
-	} else if int(n) != want+r.sentinelTombs() {
+	} else if int(n) != want+r.sentinelTombs() && r.ghostWrites == 0 {
+		// (after writes through data store objects of dropped collections the number of rows that
+		// belong to no collection is unknown: the count is not judged)
 		r.dev("purge.count", []string{"C05"}, "PurgeTombstones returned %d, model has %d body-less keys", n, want)
 		tr.Outcome = "DEVIATION"
 	}
